@@ -329,7 +329,7 @@ type dg struct {
 func (d dg) coq() string { return fmt.Sprintf("(%s, %s)", CS(d.hash), CZ(d.size)) }
 
 func ctx5() (context.Context, context.CancelFunc) {
-	return context.WithTimeout(context.Background(), 8*time.Second)
+	return context.WithTimeout(context.Background(), 90*time.Second) // generous: the machine may be heavily loaded; a hang still ends the call
 }
 
 // FindMissingBlobs for the given digests: (missing, status)
